@@ -8,7 +8,7 @@ from ..core import Undecided, attr_chain, norm, short, walk_no_nested, call_meth
 from ..paths import enumerate_paths, Path
 from ..consteval import fold_expr
 from ..report import RuleCtx
-from .c02_model import NodeModel, MPARSER, VISITOR, PRINTER, params_of, unroll_tables
+from .c02_model import NodeModel, MPARSER, VISITOR, PRINTER, params_of, unroll_tables, inline_self_calls
 
 # Reference (DESIGN A.5, read from Parser.args/key_values): in an argument list every positional argument is followed by its
 # comma; then every keyword entry is key, colon, value followed by its comma.  All other classes: declaration (= textual) order.
@@ -65,6 +65,13 @@ class Visitors:
                     continue
             return mod, qn, fn, via
         raise Undecided(f'visit_{cls}: delegation chain too long')
+
+
+def _inlined(vis: 'Visitors', fn: ast.FunctionDef) -> ast.FunctionDef:
+    def lookup(name: str) -> T.Optional[ast.FunctionDef]:
+        r = vis.resolve(name)
+        return r[2] if r else None
+    return inline_self_calls(fn, lookup, lambda n: n in ('enter_node', 'exit_node') or n.startswith('visit_'))
 
 
 def constructed_classes(model: NodeModel) -> T.Set[str]:
@@ -179,7 +186,7 @@ def check_replay(ctx: RuleCtx, model: NodeModel) -> None:
             _missing_visitor(ctx, model, cls)
             continue
         vmod, qn, fn, via = r
-        fn = unroll_tables(fn, vmod)     # `for f in ('a', 'b'): getattr(node, f).accept(self)` is one visit per declared name
+        fn = unroll_tables(_inlined(vis, fn), vmod)     # helpers inlined; `for f in ('a', 'b'): getattr(node, f).accept(self)` is one visit per declared name
         node = params_of(fn)[1]
         fset = {f for f, _ in fields}
         kinds = dict(fields)
@@ -356,6 +363,7 @@ def check_terminals(ctx: RuleCtx, model: NodeModel, bool_map: T.Dict[str, T.Any]
             _missing_visitor(ctx, model, cls)
             continue
         vmod, qn, fn, via = r
+        fn = _inlined(vis, fn)
         node = params_of(fn)[1]
         roles = model.roles(cls)
         carries = any(role == 'tok' for _, role in roles)
@@ -369,6 +377,9 @@ def check_terminals(ctx: RuleCtx, model: NodeModel, bool_map: T.Dict[str, T.Any]
             for st in p.stmts():
                 if isinstance(st, ast.AugAssign) and attr_chain(st.target) == 'self.result' and isinstance(st.op, ast.Add):
                     adds0 += _parts(st.value, node, defs)
+                elif isinstance(st, ast.Assign) and attr_chain(st.targets[0]) == 'self.result' and isinstance(st.value, ast.BinOp) \
+                        and isinstance(st.value.op, ast.Add) and norm(st.value.left) == 'self.result':
+                    adds0 += _parts(st.value.right, node, defs)
                 elif isinstance(st, (ast.Assign, ast.AugAssign)) and 'self.result' in norm(st):
                     raise Undecided(f'{qn}: `{short(st)}`')
             cm0 = {k.replace(node + '.', 'node.'): v for k, v in p.cond_map().items() if k.startswith(node + '.')}
@@ -527,3 +538,145 @@ def check_equality(ctx: RuleCtx, model: NodeModel) -> None:
         ctx.require(not eq_off and not own_eq and (deco or name != model.root), f'{name}: generated field-wise __eq__ (positions compared)', mod, name, f'__eq__ of {name}',
                     f'{name} {"disables the generated __eq__" if eq_off else "defines its own __eq__"}: as a kwargs key two entries could collapse into one', c)
     ctx.floor('node classes with generated equality', n, 30)
+
+
+def check_hashable(ctx: RuleCtx, model: NodeModel) -> None:
+    """Any expression may be written as a dictionary key (`{<expr>: v}`), and Parser.key_values stores the key *node* as a key of
+    ArgumentNode.kwargs: every node class the parser builds must therefore be hashable.  Decided from the class hierarchy:
+    `@dataclass` with eq (the default) and neither unsafe_hash nor frozen sets `__hash__ = None`; a class without its own
+    decorator inherits `__hash__` from the nearest base that has one or defines `__eq__`/`__hash__`."""
+    mod = model.mod
+    stores_nodes_as_keys = any(isinstance(s_, ast.Assign) and isinstance(s_.targets[0], ast.Subscript) and norm(s_.targets[0].value) == 'self.kwargs'
+                               for c in model.classes.values() for s_ in ast.walk(c))
+    if not stores_nodes_as_keys:
+        raise Undecided('no node class keeps nodes as dictionary keys any more (self.kwargs[...] = ...); hashability rule has no subject')
+    n = 0
+    for cls in sorted(constructed_classes(model)):
+        verdict, owner = None, None
+        for c in model.mro(cls):
+            own_hash = [s_ for s_ in c.body if (isinstance(s_, ast.FunctionDef) and s_.name == '__hash__')
+                        or (isinstance(s_, ast.Assign) and norm(s_.targets[0]) == '__hash__')]
+            own_eq = any(isinstance(s_, ast.FunctionDef) and s_.name == '__eq__' for s_ in c.body)
+            deco = [d for d in c.decorator_list if (attr_chain(d.func if isinstance(d, ast.Call) else d) or '').split('.')[-1] == 'dataclass']
+            others = [d for d in c.decorator_list if d not in deco]
+            if others:
+                raise Undecided(f'{c.name}: decorator `{short(others[0])}` may change hashing')
+            if own_hash:
+                verdict = not (isinstance(own_hash[0], ast.Assign) and isinstance(own_hash[0].value, ast.Constant) and own_hash[0].value.value is None)
+                owner = c.name
+                break
+            if deco:
+                kw = {k.arg: k.value for d in deco if isinstance(d, ast.Call) for k in d.keywords}
+                if any(not isinstance(v, ast.Constant) for v in kw.values()):
+                    raise Undecided(f'{c.name}: non-constant dataclass options')
+                opt = {k: v.value for k, v in kw.items()}  # type: ignore[union-attr]
+                if opt.get('eq', True) is False:
+                    if own_eq:
+                        verdict, owner = False, c.name   # own __eq__ without __hash__ -> __hash__ = None
+                        break
+                    continue          # dataclass leaves __eq__/__hash__ alone: look further up
+                verdict, owner = bool(opt.get('unsafe_hash') or opt.get('frozen')), c.name
+                break
+            if own_eq:
+                verdict, owner = False, c.name
+                break
+        if verdict is None:
+            verdict, owner = True, 'object'
+        n += 1
+        ctx.require(verdict, f'{cls}: hashable (hashing decided by {owner})', mod, cls, f'__hash__ of {cls}',
+                    f'{cls} takes its hashing from {owner}, a dataclass with eq and without unsafe_hash/frozen (so __hash__ is None): '
+                    f'a {cls} used as a dictionary key, e.g. `{{(): 1}}` for an empty expression, raises TypeError in Parser.key_values', model.classes[cls])
+    ctx.floor('node classes checked for hashability', n, 28)
+
+
+def check_list_order(ctx: RuleCtx, model: NodeModel) -> None:
+    """Source order across separately stored child lists.  When the full-fidelity visitor replays all of list field A of a node
+    class before any of list field B (ArgumentNode: `arguments` then `kwargs`), the text order of an A-element and a B-element
+    is only kept if the parser never stores into A after it has stored into B for the same node.  Decided on the CFG of every
+    Parser method: a store into B must not reach a store into A (a raise in between cuts the path)."""
+    from ..cfg import CFG
+    vis = Visitors(ctx.repo)
+    mod = model.mod
+    n = 0
+    for cls in sorted(constructed_classes(model)):
+        fields = model.node_fields(cls)
+        multi = [f for f, k in fields if k in ('list', 'dict')]
+        if len(multi) < 2:
+            continue
+        r = vis.resolve_visit(cls)
+        if r is None:
+            continue
+        vmod, qn, fn, via = r
+        fn = unroll_tables(_inlined(vis, fn), vmod)
+        node = params_of(fn)[1]
+        paths = [p for p in enumerate_paths(fn.body, unroll=1) if p.outcome != 'raise']
+        full = max((_accepts_on(p, fn, node, {f for f, _ in fields}) for p in paths), key=len)
+        # which field a node-class method stores its arguments into
+        writes: T.Dict[str, T.Set[str]] = {}
+        for c in model.mro(cls):
+            for m in c.body:
+                if isinstance(m, ast.FunctionDef) and m.name != '__init__' and m.name not in writes:
+                    ps = set(params_of(m)[1:])
+                    tg: T.Set[str] = set()
+                    for st in walk_no_nested(m):
+                        if isinstance(st, (ast.Assign, ast.AugAssign)):
+                            t = st.targets[0] if isinstance(st, ast.Assign) else st.target
+                            base = t.value if isinstance(t, ast.Subscript) else t
+                            ch = attr_chain(base) or ''
+                            used = {x.id for x in ast.walk(st.value) if isinstance(x, ast.Name)} | ({x.id for x in ast.walk(t.slice) if isinstance(x, ast.Name)} if isinstance(t, ast.Subscript) else set())
+                            if ch.startswith('self.') and ch[5:] in multi and used & ps:
+                                tg.add(ch[5:])
+                        elif isinstance(st, ast.Call) and isinstance(st.func, ast.Attribute) and st.func.attr in ('append', 'extend', 'insert', 'add', 'update', 'setdefault') \
+                                and (attr_chain(st.func.value) or '').startswith('self.') and (attr_chain(st.func.value) or '')[5:] in multi \
+                                and {x.id for a in st.args for x in ast.walk(a) if isinstance(x, ast.Name)} & ps:
+                            tg.add((attr_chain(st.func.value) or '')[5:])
+                    if tg:
+                        if any(isinstance(x, ast.Raise) for x in walk_no_nested(m)):
+                            raise Undecided(f'{cls}.{m.name} stores into {sorted(tg)} and can raise; whether it rejects out-of-order stores is not followed')
+                        writes[m.name] = tg
+        for a_i, A in enumerate(multi):
+            for B in multi:
+                if A == B or A not in full or B not in full:
+                    continue
+                last_a = max(i for i, f in enumerate(full) if f == A)
+                first_b = min(i for i, f in enumerate(full) if f == B)
+                if last_a > first_b:
+                    continue       # not replayed as two separate blocks in this order
+                a_meths = {m for m, t in writes.items() if A in t}
+                b_meths = {m for m, t in writes.items() if B in t}
+                if not a_meths or not b_meths:
+                    continue
+                for pname, pfn in mod.methods('Parser').items():
+                    locs = {norm(st.targets[0]) for st in walk_no_nested(pfn) if isinstance(st, ast.Assign) and isinstance(st.targets[0], ast.Name)
+                            and isinstance(st.value, ast.Call) and cls in [norm(x) for x in st.value.args[:1]] + [norm(st.value.func)]}
+                    if not locs:
+                        continue
+                    cfg = CFG(pfn)
+
+                    def sites(meths: T.Set[str]) -> T.List[T.Tuple[T.Any, ast.Call]]:
+                        out = []
+                        for nd in cfg.nodes:
+                            e = nd.expr()
+                            for c in (walk_no_nested(e) if e is not None else []):
+                                if isinstance(c, ast.Call) and isinstance(c.func, ast.Attribute) and c.func.attr in meths and norm(c.func.value) in locs:
+                                    out.append((nd, c))
+                        return out
+                    sa_, sb_ = sites(a_meths), sites(b_meths)
+                    if not sa_ or not sb_:
+                        continue
+                    n += 1
+                    # a test of the node's B-content with a raising branch between the two stores rejects the out-of-order text
+                    readers = {B} | {m.name for c in model.mro(cls) for m in c.body if isinstance(m, ast.FunctionDef) and m.name not in writes
+                                     and any(attr_chain(x) in (f'self.{B}', 'self.order_error') or (isinstance(x, ast.Call) and call_method(x) in ('num_kwargs',))
+                                             for x in ast.walk(m))}
+                    guards = [t for t in cfg.nodes if t.kind == 'test' and any(f'{x}.{r_}' in norm(t.expr()) for x in locs for r_ in readers)
+                              and any(cfg.nodes[b].kind == 'stmt' and isinstance(cfg.nodes[b].ast, ast.Raise) for b, _ in cfg.succ[t.id])]
+                    hit = [(b, a) for b in sb_ for a in sa_ if cfg.can_reach(b[0], a[0], avoid=guards, no_exc=True)]
+                    if hit:
+                        (bn, bc), (an, ac) = hit[0]
+                        ctx.violation(mod, f'Parser.{pname}', ac, f'`{short(ac)}` (stores into {cls}.{A}) can run after `{short(bc)}` (stores into {cls}.{B}) '
+                                      f'for the same node without an error being raised, but {qn} replays all of `{A}` before any of `{B}`: '
+                                      f'an accepted text with a {A[:-1] if A.endswith("s") else A} after a {B[:-1] if B.endswith("s") else B} is printed in a different order', ac)
+                    else:
+                        ctx.ok(f'Parser.{pname}: no store into {cls}.{A} is reachable after a store into {cls}.{B} ({len(sa_)}x{len(sb_)} site pairs)')
+    ctx.floor('parser methods filling separately replayed lists of one node', n, 1)
